@@ -45,6 +45,13 @@ def getPyVal (j : Json) : Except String PyVal := do
   else throw "unknown value kind"
 
 def handlers : List (String × Handler) := [
+  ("readerCalls", fun j => do
+    -- calls: list of k (0 = single fetch, k > 0 = batch of k through get_raw_frame, k < 0 = batch of -k straight from the reader)
+    let ks ← getIntList j "calls"
+    let calls := ks.map fun (k : Int) => if k = 0 then LazyCall.single else if k > 0 then LazyCall.batch k.toNat true else LazyCall.batch (-k).toNat false
+    let r := runCalls (← getBool j "should_close") calls
+    pure (okJson (Json.mkObj [("depth", (r.1.depth : Json)), ("open", Json.bool r.1.isOpen), ("reads_ok", Json.bool (r.2.all id)),
+      ("reads", (r.2.length : Json))]))),
   ("stdFrameIndexV", fun j => do
     let v ← getPyVal (← j.getObjVal? "v")
     let r := stdFrameIndexV v (← getBool j "as_index") (← getInt j "n")
